@@ -9,7 +9,7 @@ CONSTANTS
   TimeoutTicks = 2
   MaxTicks = 3
   Weaken = "none"
-INVARIANTS ObsFidelity ObsNoHang RTriggerForwarded RNoBinaryWithoutTunnel RProtocolClamped ROnlyAdds RRecovers RConserved RSameResult
+INVARIANTS ObsFidelity ObsNoHang RTriggerForwarded RNoBinaryWithoutTunnel RProtocolClamped ROnlyAdds RRecovers RConserved RRefusalReaches RSameResult
 CONSTRAINT HW
 POSTCONDITION Accepted
 CHECK_DEADLOCK FALSE
